@@ -293,7 +293,7 @@ class Engine:
     def reset(self, params=(), limits=None, concrete_inputs=None):
         """forget everything that belongs to one harness instance"""
         lim = {'max_paths': 20000, 'max_instr_path': 400_000_000, 'max_instr_total': 4_000_000_000, 'max_depth': 600,
-               'timeout_s': 3600, 'branch_timeout_ms': 10000, 'assert_timeout_ms': 1000, 'fallback_timeout_s': 120,
+               'timeout_s': 3600, 'branch_timeout_ms': 2000, 'assert_timeout_ms': 1000, 'fallback_timeout_s': 120,
                'max_addr_values': 256}
         if limits:
             lim.update(limits)
@@ -306,6 +306,7 @@ class Engine:
         self.solver.set('timeout', lim['branch_timeout_ms'])
         self.spc = []
         self.z3_streak = 0
+        self.fast_fail = False
         self.qhist = []
         self.nqueries = 0
         self.solver_time = 0.0
@@ -359,6 +360,10 @@ class Engine:
         if DEBUG and dt_ > 0.5:
             print('SLOW-BRANCH %.2fs pc=%d r=%s' % (dt_, len(st.pc), r), file=sys.stderr, flush=True)
         if r == z3.unknown:
+            # z3 bit-blasting is stuck on this kind of query: give it less time from now on, cvc5 (int-blasting) takes over
+            if not self.fast_fail:
+                self.fast_fail = True
+                self.solver.set('timeout', 300)
             return self.portfolio(st, extra, skip_z3=True)
         return m
 
@@ -1123,15 +1128,11 @@ class Engine:
         raise Panic(msg + '  [in %s]' % fr.func.dem)
 
     def i_alloc(self, st, fr, name, dem, args, rt):
-        size, align = args[0], args[1]
-        if is_sym(size):
-            raise Unsupported('symbolic alloc size')
+        size, align = self.need_conc(st, args[0]), self.need_conc(st, args[1])
         return self.alloc(st, size, align, 'heap@' + fr.func.dem[:60])
 
     def i_alloc_zeroed(self, st, fr, name, dem, args, rt):
-        size, align = args[0], args[1]
-        if is_sym(size):
-            raise Unsupported('symbolic alloc size')
+        size, align = self.need_conc(st, args[0]), self.need_conc(st, args[1])
         return self.alloc(st, size, align, 'heapz@' + fr.func.dem[:60], fill=0)
 
     def i_dealloc(self, st, fr, name, dem, args, rt):
@@ -1142,8 +1143,9 @@ class Engine:
 
     def i_realloc(self, st, fr, name, dem, args, rt):
         ptr, old, align, new = args
-        if is_sym(new) or is_sym(old):
-            raise Unsupported('symbolic realloc size')
+        new = self.need_conc(st, new)
+        old = self.need_conc(st, old)
+        ptr = self.need_conc(st, ptr)
         nb = self.alloc(st, new, align, 'heapr@' + fr.func.dem[:60])
         self.memcpy(st, nb, ptr, min(old, new))
         o = self.find_obj(st, ptr, write=True)
@@ -1350,13 +1352,14 @@ class Engine:
     def extern(self, st, fr, name, dem, args, rt):
         n = name.lstrip('@')
         if n in ('memcpy', 'memmove'):
-            self.memcpy(st, args[0], args[1], self.need_conc(args[2]))
+            self.memcpy(st, self.need_conc(st, args[0]), self.need_conc(st, args[1]), self.need_conc(st, args[2]))
             return args[0]
         if n == 'memset':
-            self.memset(st, args[0], args[1] & 0xff if not is_sym(args[1]) else args[1], self.need_conc(args[2]))
+            self.memset(st, self.need_conc(st, args[0]), args[1] & 0xff if not is_sym(args[1]) else args[1], self.need_conc(st, args[2]))
             return args[0]
         if n in ('memcmp', 'bcmp'):
-            cnt = self.need_conc(args[2])
+            cnt = self.need_conc(st, args[2])
+            args = [self.need_conc(st, args[0]), self.need_conc(st, args[1]), cnt]
             # build symbolic comparison result (only equality sign matters for bcmp; memcmp sign by first diff)
             res = 0
             for i in reversed(range(cnt)):
@@ -1371,22 +1374,30 @@ class Engine:
             return res
         raise Unsupported('external function %s (%s)' % (n, dem))
 
-    def need_conc(self, v):
-        if is_sym(v):
-            v = z3.simplify(v)
-            if z3.is_bv_value(v):
-                return v.as_long()
-            raise Unsupported('symbolic size')
-        return v
+    def need_conc(self, st, v):
+        """a value that must be concrete (allocation size, copy length).  If the path condition pins it to one
+        value, return that value; otherwise ask the main loop to fork on its feasible values (NeedFork)."""
+        if not is_sym(v):
+            return v
+        v = z3.simplify(v)
+        if z3.is_bv_value(v):
+            return v.as_long()
+        m = st.model if st.model is not None else self.check(st)
+        if m is None:
+            raise PathEnd('infeasible')
+        v0 = m.eval(v, model_completion=True).as_long()
+        if self.check(st, v != z3.BitVecVal(v0, v.size())) is None:
+            return v0
+        raise NeedFork(v)
 
     def intrinsic(self, st, fr, name, args, rt):
         n = name[6:]
         if n.startswith('memcpy.') or n.startswith('memmove.'):
-            self.memcpy(st, args[0], args[1], self.need_conc(args[2]))
+            self.memcpy(st, self.need_conc(st, args[0]), self.need_conc(st, args[1]), self.need_conc(st, args[2]))
             return None
         if n.startswith('memset.'):
             v = args[1]
-            self.memset(st, args[0], v, self.need_conc(args[2]))
+            self.memset(st, self.need_conc(st, args[0]), v, self.need_conc(st, args[2]))
             return None
         if n.startswith('lifetime.') or n.startswith('dbg.') or n.startswith('assume') or n.startswith('experimental.noalias') or n.startswith('prefetch'):
             return None
@@ -1525,6 +1536,40 @@ class Engine:
 
     # ------------------------------------------------------------------ main loop
     def run_state(self, st, worklist):
+        while True:
+            fr = st.frames[-1]
+            save = (len(st.frames), fr.block, fr.idx, fr.prev)
+            try:
+                return self._run(st, worklist)
+            except NeedFork as nf:
+                # restore the instruction pointer of the faulting instruction (no side effect happened before the raise)
+                cur = st.frames[-1]
+                cur.idx -= 1
+                st.nins -= 1
+                if st.pending:
+                    self.flush(st)
+                vals = sorted(self.addr_values(st, nf.expr, limit=64))
+                if not vals:
+                    raise PathEnd('infeasible')
+                w = nf.expr.size()
+                if len(vals) > 1 and len(st.dec) < len(self.forced):
+                    k = self.forced[len(st.dec)]
+                    st.dec = st.dec + (k,)
+                    vals = [vals[k]]
+                elif len(vals) > 1:
+                    d0 = st.dec
+                    st.dec = d0 + (0,)
+                    for k, val in enumerate(vals[1:]):
+                        other = st.fork()
+                        other.dec = d0 + (k + 1,)
+                        other.pc.append(nf.expr == z3.BitVecVal(val, w))
+                        other.model = None
+                        worklist.append(other)
+                        self.stats['forks'] += 1
+                st.pc.append(nf.expr == z3.BitVecVal(vals[0], w))
+                st.model = None
+
+    def _run(self, st, worklist):
         """run until path ends; push forks on worklist"""
         tc = self.tc
         max_ins = self.limits['max_instr_path']
@@ -1798,22 +1843,29 @@ class Engine:
 
     # symbolic addresses: enumerate feasible concrete values
     def addr_values(self, st, addr, limit=None):
+        """all feasible concrete values of a symbolic term under the path condition (bounded)"""
         limit = limit or self.limits['max_addr_values']
         vals = []
         extra = []
+        w = addr.size()
         while True:
             self.nqueries += 1
+            self.stats['z3_queries'] += 1
             t0 = time.time()
             self.sync(st)
             r = self.solver.check(*extra)
-            self.solver_time += time.time() - t0
+            dt_ = time.time() - t0
+            self.solver_time += dt_
+            self.stats['z3_time'] += dt_
+            if r == z3.unknown:
+                raise Inconclusive('solver unknown while enumerating values of a symbolic address/size')
             if r != z3.sat:
                 break
             v = self.solver.model().eval(addr, model_completion=True).as_long()
             vals.append(v)
-            extra.append(addr != z3.BitVecVal(v, 64))
+            extra.append(addr != z3.BitVecVal(v, w))
             if len(vals) > limit:
-                raise Unsupported('too many values for symbolic address')
+                raise Unsupported('more than %d values for a symbolic address/size' % limit)
         return vals
 
     def sym_load(self, st, t, addr):
@@ -1924,6 +1976,12 @@ class Engine:
             'wall': round(time.time() - self.t_start, 3), 'pending': len(worklist),
             'path_samples': self.path_samples, 'remaining': remaining,
         }
+
+
+class NeedFork(Exception):
+    """the current instruction needs `expr` concrete: fork the state on its feasible values and re-execute"""
+    def __init__(self, expr):
+        self.expr = expr
 
 
 class SymAddr(Exception):
